@@ -45,6 +45,16 @@ CHECKS = {
          "Span sets from sorted cut points (adjacent, gapped, zero-length, first span after 0, spans larger than the buffer, unsorted order, five overlap perturbations) x buffer budgets; merge plans for up to 12 segments, and every population of <= 4 segments over {frozen,thawed} x write positions 0..=4 (plus all-frozen 5-segment populations) x three thresholds enumerated completely. Every move: source live, destination free at that moment, within segment size, destinations disjoint; every live byte exactly once at the end.",
          "Trusted: the interval model in harness/c18/src/plan.rs (mapping quoted from the rustdoc of MoveItem/SegmentInfo). Spans always lie inside the file, as index-derived spans do.",
          "DESIGN.md §3 C18"),
+ "C19": ("pbt+enum", "exploration",
+         "generated builder programs for install/download/size manifests judged against a set model (tag -> file set, shifting on remove_file) and by an independent MSB-first bit reader on the serialised bytes; exhaustive enumeration of file counts 0..=70 and of every single remove_file",
+         "Every file count 0..=70 x {each single index, all, even, odd} x tag before/after files, and every (count, removed index) x 7 association patterns, are enumerated for install, download and size manifests; random programs use the whole builder API (0-20 tags, up to 300 files, all versions, sizes up to 2^40-1, priorities over i8). After build->bytes->parse every per-tag / all-of / any-of / platform / priority query and every size total equals the model, and the independent reader finds bit i of each tag at byte i/8, mask 0x80>>(i%8), with masks of exactly ceil(n/8) bytes.",
+         "Trusted: the set model and the independent reader in harness/c19/src/raw.rs (written from the documented layout). Tag names unique among live tags and NUL-free; encoding keys unique.",
+         "DESIGN.md §3 C19"),
+ "C08": ("iso+pbt", "exploration",
+         "round-trip / fixed-point oracle (parse->build->parse->build, logical projections per format) over mutation-fuzzed accepted inputs executed in isolated worker processes, plus proptest builder programs and byte-identity of the CDN fixtures",
+         "The C02 input stream (seeds, truncations, deterministic boundary sweep, shape generators, stacked mutations with integrity fix-ups) for all 18 CascFormat types; every accepted input must rebuild, re-parse, rebuild byte-identically and keep its logical projection. Builder programs for size manifest, patch archive, patch index, build/CDN/patch/keyring config, BPSV and ESpec must parse back to what was built. Every repo CDN fixture must rebuild to identical bytes.",
+         "Trusted: the projections in harness/c02/src/project.rs (entries, keys, sizes, flags, tags; not raw buffers, derived counts, layout offsets or record order where build() sorts). Inputs that crash or over-allocate are left to C02. Values in a named non-round-tripping class get that class as their key (Project::diagnose).",
+         "DESIGN.md §3 C08"),
 }
 
 NOT_YET = "check not built yet in this session (work in progress; see DESIGN.md §3 for the planned generator and oracle)"
@@ -86,6 +96,8 @@ def main():
             "add_only": True,
         },
         "engines": [
+            {"name": "iso", "path": "harness/engine/src/iso.rs", "serves_properties": ["C02", "C08"],
+             "kind_free_text": "mutation fuzzing with master/worker process isolation: a tracking global allocator refuses out-of-proportion requests, the master attributes worker deaths (abort, stack overflow, OOM) and CPU-budget hangs to the input in flight, minimises failing inputs and writes them as replay files"},
             {"name": "pbt+enum", "path": "harness/engine/src/lib.rs", "serves_properties": sorted(CHECKS),
              "kind_free_text": "proptest TestRunner driven from per-property binaries (fixed seeds from VERIF_SEED, sharded over threads, shrinking to a JSON replay file) plus deterministic enumeration of finite sub-scopes; explicit oracles (reference model, round trip, differential, invariant)"},
         ],
